@@ -4,6 +4,7 @@ import (
 	"fmt"
 	"strconv"
 	"strings"
+	"sync"
 
 	"github.com/AdguardTeam/urlfilter"
 	"github.com/AdguardTeam/urlfilter/filterlist"
@@ -227,6 +228,7 @@ func init() {
 		}
 		g := statespace.BFS(model, guard, false, c.Workers, c.Deadline)
 		s := statespace.BFS(model, depth, true, c.Workers, c.Deadline)
+		c02Corpus(c)
 		c.Run.Sample(map[string]any{"history": []string{lines[0].text, lines[4].text, lines[14].text}, "requests": len(m.reqs)})
 		c.Run.Sample(map[string]any{"history": []string{lines[19].text, lines[20].text, lines[21].text}, "note": "colliding host names share a bucket of the host table"})
 		c.Run.Set("states", s.States)
@@ -245,4 +247,134 @@ func init() {
 		c.Run.Assumption("which alphabet lines are DNS-applicable is fixed in the alphabet table ($domain, $third-party and content-type rules are browser-only)")
 		c.Run.Assumption("NetworkRule.Match / HostRule.Match on independently parsed rules define 'matches the hostname' (properties C04 and C18)")
 	})
+}
+
+// c02Corpus compares the DNS engine built over the bundled hosts file and DNS
+// filter with the linear scan, for the host names of the recorded requests and
+// a stride of the names listed in the hosts file.
+func c02Corpus(c *Ctx) {
+	var ls []filterlist.RuleList
+	var nets []*rules.NetworkRule
+	var hostRules []*rules.HostRule
+	for li, rel := range []string{"testdata/hosts", "testdata/adguard_sdn_filter.txt"} {
+		content := corpusContent(rel)
+		if content == "" {
+			continue
+		}
+		ls = append(ls, &filterlist.StringRuleList{ID: li, RulesText: content, IgnoreCosmetic: true})
+		for _, l := range corpusLines(rel) {
+			r, err := rules.NewRule(l, li)
+			if err != nil || r == nil {
+				continue
+			}
+			switch r := r.(type) {
+			case *rules.NetworkRule:
+				if r.IsHostLevelNetworkRule() {
+					nets = append(nets, r)
+				}
+			case *rules.HostRule:
+				hostRules = append(hostRules, r)
+			}
+		}
+	}
+	if len(ls) == 0 {
+		c.Run.Set("corpus_layer", "bundled lists not found")
+		return
+	}
+	st, err := filterlist.NewRuleStorage(ls)
+	if err != nil {
+		panic(HarnessError(err.Error()))
+	}
+	e := urlfilter.NewDNSEngine(st)
+	byName := map[string][]*rules.HostRule{}
+	for _, h := range hostRules {
+		for _, n := range h.Hostnames {
+			byName[n] = append(byName[n], h)
+		}
+	}
+	seen := map[string]bool{}
+	var names []string
+	add := func(n string) {
+		if n != "" && !seen[n] {
+			seen[n] = true
+			names = append(names, n)
+		}
+	}
+	stride := 40
+	if c.Thorough() {
+		stride = 4
+	}
+	for _, r := range corpusRequests() {
+		add(strings.ToLower(rules.NewRequest(r.URL, "", r.Type).Hostname))
+	}
+	for i, h := range hostRules {
+		if i%stride == 0 {
+			for _, n := range h.Hostnames {
+				add(n)
+				add("www." + n)
+				if j := strings.IndexByte(n, '.'); j > 0 {
+					add(n[j+1:])
+				}
+			}
+		}
+	}
+	var mu sync.Mutex
+	var compared, nonEmpty int64
+	c.parallel(len(names), func(i int) {
+		if c.Expired() {
+			return
+		}
+		name := names[i]
+		res, matched := e.MatchRequest(&urlfilter.DNSRequest{Hostname: name, DNSType: 1})
+		req := rules.NewRequestForHostname(name)
+		req.DNSType = 1
+		var wantNR []string
+		for _, r := range nets {
+			if r.Match(req) {
+				wantNR = append(wantNR, r.RuleText)
+			}
+		}
+		var wantV4, wantV6, gotV4, gotV6 []string
+		for _, h := range byName[name] {
+			if h.IP.Is4() {
+				wantV4 = append(wantV4, h.RuleText)
+			} else {
+				wantV6 = append(wantV6, h.RuleText)
+			}
+		}
+		for _, h := range res.HostRulesV4 {
+			gotV4 = append(gotV4, h.RuleText)
+		}
+		for _, h := range res.HostRulesV6 {
+			gotV6 = append(gotV6, h.RuleText)
+		}
+		bad := ""
+		switch {
+		case !eqStrings(sortedSet(netTexts(res.NetworkRules)), sortedSet(wantNR)):
+			bad = fmt.Sprintf("NetworkRules %v, linear scan %v", sortedSet(netTexts(res.NetworkRules)), sortedSet(wantNR))
+		case res.NetworkRule != nil && (c06Special(res.NetworkRule) != "" || !res.NetworkRule.Match(req)):
+			bad = "NetworkRule " + res.NetworkRule.RuleText + " is not an applicable matching rule"
+		case res.NetworkRule != nil && (len(gotV4)+len(gotV6) > 0 || !matched):
+			bad = "a basic rule was found but host rules were consulted or matched is false"
+		case res.NetworkRule == nil && (!eqStrings(sortedSet(gotV4), sortedSet(wantV4)) || !eqStrings(sortedSet(gotV6), sortedSet(wantV6))):
+			// without a basic rule the host entries naming the host are returned (unless a non-basic network rule set stands in the way: none is basic here)
+			if len(wantNR) == 0 || rules.GetDNSBasicRule(res.NetworkRules) == nil {
+				bad = fmt.Sprintf("host rules v4=%v v6=%v, linear scan v4=%v v6=%v", sortedSet(gotV4), sortedSet(gotV6), sortedSet(wantV4), sortedSet(wantV6))
+			}
+		}
+		mu.Lock()
+		compared++
+		if len(wantNR)+len(wantV4)+len(wantV6) > 0 {
+			nonEmpty++
+		}
+		mu.Unlock()
+		if bad != "" {
+			c.Run.Violate(ev.Violation{Pred: "corpus-dns-answer-equals-linear-scan", Sig: map[string]any{"hostname": name},
+				What: fmt.Sprintf("DNS engine over the bundled hosts file and DNS filter, query %q: %s", name, bad), Replay: map[string]any{"history": []int{}}})
+		}
+	})
+	c.Run.Set("corpus_network_rules", int64(len(nets)))
+	c.Run.Set("corpus_host_rules", int64(len(hostRules)))
+	c.Run.Set("corpus_hostnames_compared", compared)
+	c.Run.Set("corpus_hostnames_with_matches", nonEmpty)
 }
